@@ -15,7 +15,8 @@
 //!             sleep  coroutine::sleep / thread sleep                 (api 3)
 //! MAYV_CTX  = co | th      context of the caller
 //! Oracles on the implementation (independent of the model): Timeout never before call + d; Timeout no later than
-//! call + d + 1 ms when no wake-up without data was scripted (nothing delays a differential run); every call returns.
+//! call + d + 1 ms (nothing delays a differential run) whatever wake-ups without data were scripted (fix 3916da2);
+//! a timeout that does not fit the clock (Duration::MAX) neither panics nor expires (fix 03f0e0d); every call returns.
 use mayv::*;
 use std::alloc::{GlobalAlloc, Layout, System};
 use std::sync::{Arc, Mutex};
@@ -150,13 +151,8 @@ fn print_case(c: &Ctx, api: u32, in_co: bool, d: u64, o: &Out, evs: &[(u64, u8)]
     if o.res == 1 && el < d {
         c.fail(format!("api {api} ctx {}: timeout of {d} ns reported after only {el} ns", if in_co { "co" } else { "th" }));
     }
-    // after wake-ups without data the deadline loops park for the full timeout again: the last park of a call starts
-    // before the deadline, so 2 d + 1 ms bounds the call whatever the number of wake-ups (C08_callers_code_loop_returned_partial)
-    if o.res == 1 && spurious && el > 2 * d + MS {
-        c.fail(format!("api {api} ctx {}: timeout of {d} ns reported only after {el} ns (more than 2 d + 1 ms) although nothing delayed the call", if in_co { "co" } else { "th" }));
-    }
-    if o.res == 1 && !spurious && el > d + MS {
-        c.fail(format!("api {api} ctx {}: timeout of {d} ns reported only after {el} ns although nothing delayed the call", if in_co { "co" } else { "th" }));
+    if o.res == 1 && el > d + MS {
+        c.fail(format!("api {api} ctx {}: timeout of {d} ns reported only after {el} ns although nothing delayed the call{}", if in_co { "co" } else { "th" }, if spurious { " (it was woken without data)" } else { "" }));
     }
 }
 
@@ -416,6 +412,65 @@ fn main() {
             }
             // a gap between the cases: late events of this case must not reach the next one
             ctx.sleep_ns(40 * MS);
+        }
+        // a timeout too large for the clock: the call waits for the event (at + 2 ms), it neither panics nor times out
+        if mode == "mpsc" || mode == "cq" {
+            let tc = ctx.now() + 3 * MS;
+            let out = Arc::new(Mutex::new(None::<Out>));
+            let o2 = out.clone();
+            let dmax = Duration::MAX.as_nanos();
+            if mode == "mpsc" {
+                let (tx, rx) = may::sync::mpsc::channel::<u32>();
+                let h = ctx.spawn("snd", move || {
+                    wait_until(tc + 2 * MS);
+                    let _ = tx.send(7);
+                    wait_until(tc + 3 * MS);
+                });
+                in_ctx(ctx, in_co, move || {
+                    let c = mayv::ctx();
+                    wait_until(tc);
+                    let t0 = c.now();
+                    let r = std::panic::catch_unwind(std::panic::AssertUnwindSafe(|| rx.recv_timeout(Duration::MAX)));
+                    let t1 = c.now();
+                    let res = match r {
+                        Ok(Ok(_)) => 0,
+                        Ok(Err(std::sync::mpsc::RecvTimeoutError::Timeout)) => 1,
+                        Ok(Err(_)) => 2,
+                        Err(_) => 9,
+                    };
+                    *o2.lock().unwrap() = Some(Out { t0, res, t1 });
+                });
+                ctx.join(h);
+            } else {
+                in_ctx(ctx, in_co, move || {
+                    let c = mayv::ctx();
+                    wait_until(tc);
+                    may::cqueue::scope(|cq| {
+                        cq.add(0, move |es| {
+                            wait_until(tc + 2 * MS);
+                            es.send(0);
+                        });
+                        cq.add(99, move |_es| {
+                            may::coroutine::sleep(Duration::from_secs(3600));
+                        });
+                        let t0 = c.now();
+                        let r = std::panic::catch_unwind(std::panic::AssertUnwindSafe(|| cq.poll(Some(Duration::MAX))));
+                        let t1 = c.now();
+                        let res = match r {
+                            Ok(Ok(_)) => 0,
+                            Ok(Err(may::cqueue::PollError::Timeout)) => 1,
+                            Ok(Err(_)) => 2,
+                            Err(_) => 9,
+                        };
+                        *o2.lock().unwrap() = Some(Out { t0, res, t1 });
+                    });
+                });
+            }
+            let o = out.lock().unwrap().take().unwrap();
+            println!("CASE {} {} {} {} {} {} {} 1 => {} {}", if mode == "mpsc" { 0 } else { 1 }, if in_co { 0 } else { 1 }, o.t0, dmax, o.res, o.t1, tc + 2 * MS, o.res, o.t1);
+            if o.res != 0 || o.t1 != tc + 2 * MS {
+                ctx.fail(format!("a call with Duration::MAX as timeout {} at {} (the event came at {})", match o.res { 9 => "panicked", 1 => "timed out", 0 => "returned the event", _ => "failed" }, o.t1, tc + 2 * MS));
+            }
         }
     })
 }
